@@ -225,3 +225,97 @@ func CheckOrderingLossy(c *Ctx, clients []*TClient, lossy map[*TClient]bool) {
 func DroppedTo(w *World, id wamp.ID) int {
 	return w.Log.drops[fmt.Sprintf("%d", id)]
 }
+
+
+// sessAnnounced: did the session announce feature feat for role in its HELLO?
+func sessAnnounced(s *Sess, role, feat string) bool {
+	var roles wamp.Dict
+	if s.Hello != nil && s.Hello["roles"] != nil {
+		roles, _ = wamp.AsDict(s.Hello["roles"])
+	} else {
+		roles = AllFeatures()
+	}
+	rd, _ := wamp.AsDict(roles[role])
+	fd, _ := wamp.AsDict(rd["features"])
+	b, _ := fd[feat].(bool)
+	return b
+}
+
+// CheckDisclosure (C12 under concurrency and faults): a caller's or publisher's identity
+// appears in an INVOCATION or EVENT only if it was asked for - by the originator
+// (disclose_me: then the realm must allow it and the recipient must have announced the
+// identification feature) or by the registration (disclose_caller) - whatever else happens
+// to the call on its way (a full queue, a fail-over, a retry). A publication refused for
+// disclose_me must not be delivered at all.
+func CheckDisclosure(c *Ctx, clients []*TClient, allowDisclose bool) {
+	calls := map[string]*CallRec{}
+	pubDiscl := map[string]bool{}
+	var procDiscl [][2]string // (procedure, match) of every REGISTER sent with disclose_caller
+	for _, cl := range clients {
+		for _, cr := range cl.Calls {
+			calls[cr.Tag] = cr
+		}
+		for k := range cl.pubDiscl {
+			pubDiscl[k] = true
+		}
+		// (by what was sent, not by what was acknowledged: a REGISTERED may be lost to a slow reader)
+		for _, o := range cl.Out {
+			if rg, ok := o.Msg.(*wamp.Register); ok {
+				if d, _ := rg.Options["disclose_caller"].(bool); d {
+					m, _ := wamp.AsString(rg.Options["match"])
+					procDiscl = append(procDiscl, [2]string{string(rg.Procedure), m})
+				}
+			}
+		}
+	}
+	asksDisclosure := func(proc string) bool {
+		for _, pd := range procDiscl {
+			if MMatches(proc, pd[0], normMatchStr(pd[1])) {
+				return true
+			}
+		}
+		return false
+	}
+	for _, cl := range clients {
+		for _, r := range cl.Inbox {
+			switch x := r.Msg.(type) {
+			case *wamp.Invocation:
+				_, has := x.Details["caller"]
+				if !has {
+					continue
+				}
+				c.Probe("disclosed_invocation_checked")
+				cr := calls[tagOf(x.Arguments)]
+				byCaller := cr != nil && cr.Disclose && allowDisclose && sessAnnounced(cl.Sess, "callee", "caller_identification")
+				byReg := cr != nil && asksDisclosure(string(cr.Proc))
+				if cr == nil {
+					continue // not a call of this workload (a meta procedure's own traffic)
+				}
+				if !byReg && !byCaller {
+					c.Violf("%s received the caller's identity in %s although neither a registration of that procedure asked for it (disclose_caller; registration %d) nor did the caller ask (disclose_me), the realm allow it and this callee announce caller_identification", cl.Name, Brief(x), x.Registration)
+				}
+			case *wamp.Event:
+				tag := tagOf(x.Arguments)
+				n, _ := argInt(x.Arguments, 1)
+				asked := pubDiscl[fmt.Sprintf("%s#%d", tag, n)]
+				if asked && !allowDisclose && strings.HasPrefix(tag, "p:") {
+					c.Violf("%s received %s: a publication with disclose_me in a realm that does not allow disclosure is refused, not delivered", cl.Name, Brief(x))
+				}
+				if _, has := x.Details["publisher"]; has {
+					c.Probe("disclosed_event_checked")
+					if !(asked && allowDisclose && sessAnnounced(cl.Sess, "subscriber", "publisher_identification")) {
+						c.Violf("%s received the publisher's identity in %s although the publisher did not ask for disclosure, or the realm does not allow it, or this subscriber did not announce publisher_identification", cl.Name, Brief(x))
+					}
+				}
+			}
+		}
+	}
+}
+
+
+func normMatchStr(m string) string {
+	if m == "prefix" || m == "wildcard" {
+		return m
+	}
+	return "exact"
+}
